@@ -63,6 +63,15 @@ structure Inv (s : State) : Prop where
 
 theorem Inv.pinv {s : State} (h : Inv s) : PInv s := ⟨h.persist, h.journal, h.valid, h.nodup, h.nonzero⟩
 
+/-- `BestState.TotalTxns` is the transaction count of the active chain (genesis included). -/
+def TT (s : State) : Prop := s.totalTxns = totalTxns s.chainRev.reverse
+
+theorem totalTxns_cons (b : Block) (c : List Block) :
+    totalTxns (b :: c).reverse = totalTxns c.reverse + (1 + b.txs.length) := by
+  simp [totalTxns]; omega
+
+theorem tt_init : TT init := rfl
+
 theorem inv_init : Inv init :=
   ⟨cinv_empty _, rfl, trivial, trivial, List.nodup_nil, ⟨[], [], rfl, rfl, rfl⟩, fun _ h => by simp [init] at h⟩
 
@@ -91,6 +100,10 @@ theorem flushAt_inv (s : State) (tip : Nat) (mode : Mode) (full due : Bool) (h :
     show abs emptyCache (writeCache s.cache s.db) = _
     rw [abs_empty, hdb]
   · exact ⟨h, by trivial, by trivial⟩
+
+theorem flushAt_totalTxns (s : State) (tip : Nat) (mode : Mode) (full due : Bool) :
+    (flushAt s tip mode full due).totalTxns = s.totalTxns := by
+  unfold flushAt; split <;> rfl
 
 /-- After a flush that happens, the bucket alone is the fold, the cache is empty and the
 consistency marker names the tip. -/
@@ -121,7 +134,8 @@ theorem fetch_result (s : State) (o : OutPoint) (h : Inv s) :
 theorem connect_inv (s : State) (b : Block) (validate bip30 full : Bool) (h : Inv s)
     (hv : validBlock (utxoRev s.chainRev) (s.chainRev.length + 1) b)
     (hid : b.id ∉ s.chainRev.map (·.id)) (hnz : b.id ≠ 0) :
-    ∃ s', connect s b validate bip30 full = some s' ∧ Inv s' ∧ s'.chainRev = b :: s.chainRev := by
+    ∃ s', connect s b validate bip30 full = some s' ∧ Inv s' ∧ s'.chainRev = b :: s.chainRev ∧
+      s'.totalTxns = s.totalTxns + (1 + b.txs.length) := by
   unfold connect
   -- validation fetches keep everything
   have hc0 : CInv (if validate = true then fetchMany s.cache s.db (validationFetches bip30 b) else s.cache) s.db ∧
@@ -137,7 +151,7 @@ theorem connect_inv (s : State) (b : Block) (validate bip30 full : Bool) (h : In
   obtain ⟨c1, hct, hc1, habs1⟩ := connectTransactions_spec s.db (s.chainRev.length + 1) c0 b hc0i hv
   simp only [hct]
   let s1 : State := { s with cache := c1, journal := setJournal s.journal b.id (some (journalOf (abs c0 s.db) (s.chainRev.length + 1) b)),
-                             chainRev := b :: s.chainRev }
+                             chainRev := b :: s.chainRev, totalTxns := s.totalTxns + (1 + b.txs.length) }
   have hs1 : Inv s1 := by
     obtain ⟨above, below, hsplit, hmk, hdb⟩ := h.persist
     refine ⟨hc1, ?_, ⟨?_, ?_⟩, ⟨?_, h.valid⟩, ?_, ⟨b :: above, below, ?_, hmk, hdb⟩, ?_⟩
@@ -157,6 +171,6 @@ theorem connect_inv (s : State) (b : Block) (validate bip30 full : Bool) (h : In
       · exact hnz
       · exact h.nonzero x hx
   have hfl := flushAt_inv s1 b.id .ifNeeded full false hs1 rfl
-  exact ⟨_, rfl, hfl.1, hfl.2.1⟩
+  exact ⟨_, rfl, hfl.1, hfl.2.1, flushAt_totalTxns _ _ _ _ _⟩
 
 end BV.C03.Lemmas
